@@ -613,6 +613,20 @@ func TestReplay(t *testing.T) {
 		t.Skip("no VERIF_REPLAY_FILE")
 	}
 	defer ctx.Rec.Flush()
+	var l lbCase
+	var b burstCase
+	if err := json.Unmarshal(v.Case, &l); err == nil && l.Kind == "selection" {
+		fl := runSelection(l)
+		ctx.Rec.Case("replay", true, string(v.Case), l)
+		ctx.Judge(t, v.Test, fl, l)
+		return
+	}
+	if err := json.Unmarshal(v.Case, &b); err == nil && b.Kind == "burst" {
+		fl := runBurst(b)
+		ctx.Rec.Case("replay", true, string(v.Case), b)
+		ctx.Judge(t, v.Test, fl, b)
+		return
+	}
 	fl := runCase(c)
 	ctx.Rec.Case("replay", true, string(v.Case), c)
 	ctx.Judge(t, v.Test, fl, c)
